@@ -1495,6 +1495,11 @@ pub fn build_world(seed: u64) -> Result<(World, usize), String> {
 	cfg.trunk = if cfg.nrd { r.range(10, 13) } else { r.range(8, 12) };
 	cfg.tx_pct = 50;
 	cfg.max_txs = 2;
+	if cfg.nrd {
+		// threads other than the simulation's own (API handler threads, the node's peer threads) read
+		// the process-wide flag
+		global::set_global_nrd_enabled(true);
+	}
 	let mut w = World::new(seed, cfg, "pool-w");
 	let mut tip = 0;
 	for _ in 0..w.cfg.trunk {
